@@ -142,6 +142,14 @@ func FactOf(g Guard) Fact {
 			v, br = u.X, !br
 			continue
 		}
+		// a boolean kept in a field of a struct literal built in this function (`s := &T{Flag: x != ""}; … if s.Flag`): the
+		// field's single store, made before the struct can have been handed to anyone, is what the load observes
+		if u, ok := v.(*ssa.UnOp); ok && u.Op == token.MUL {
+			if sv := fieldOfFreshStruct(u); sv != nil {
+				v = sv
+				continue
+			}
+		}
 		// b == false, b != true, true == b ... : a comparison of a boolean with a boolean constant is that boolean (or its negation)
 		if bo, ok := v.(*ssa.BinOp); ok && (bo.Op == token.EQL || bo.Op == token.NEQ) {
 			other, cv, isC := ssa.Value(nil), false, false
@@ -409,4 +417,42 @@ func Referrers(v ssa.Value) []ssa.Instruction {
 		return *r
 	}
 	return nil
+}
+
+// fieldOfFreshStruct: load is `*(&alloc.f)` of a struct allocated in the same function, field f is stored exactly once, that
+// store dominates the load, and every use of the struct other than field accesses comes after the load.
+func fieldOfFreshStruct(load *ssa.UnOp) ssa.Value {
+	fa, ok := load.X.(*ssa.FieldAddr)
+	if !ok {
+		return nil
+	}
+	al, ok := fa.X.(*ssa.Alloc)
+	if !ok || al.Referrers() == nil {
+		return nil
+	}
+	var st *ssa.Store
+	n := 0
+	for _, r := range *al.Referrers() {
+		fa2, ok := r.(*ssa.FieldAddr)
+		if !ok {
+			// the struct itself is used (handed on, stored): only acceptable after the load
+			if in, ok := r.(ssa.Instruction); ok && !Before(load, in) {
+				return nil
+			}
+			continue
+		}
+		if fa2.Field != fa.Field || fa2.Referrers() == nil {
+			continue
+		}
+		for _, r2 := range *fa2.Referrers() {
+			if s, ok := r2.(*ssa.Store); ok && s.Addr == ssa.Value(fa2) {
+				st = s
+				n++
+			}
+		}
+	}
+	if n != 1 || !Before(st, load) {
+		return nil
+	}
+	return st.Val
 }
